@@ -364,7 +364,7 @@ pub fn checks_for(pid: &str) -> Checks {
 /// the RFC text, independent of coset's test vectors).
 pub fn selftest() -> Result<usize, String> {
     use crate::refcose::*;
-    let mut n = 0;
+    let mut n = c01::selftest()?;
     let h = |s: &str| unhex(s).unwrap();
     // C.2.1 single-signer COSE_Sign1: protected {1: -7}, unprotected {4: '11'}
     let sign1 = h("d28443a10126a10442313154546869732069732074686520636f6e74656e742e58408eb33e4ca31d1c465ab05aac34cc6b23d58fef5c083106c4d25a91aef0b0117e2af9a291aa32e14ab834dc56ed2a223444547e01f11d3b0916e5a4c345cacb36");
